@@ -118,6 +118,7 @@ package itemsfetcher
 //@   loop 2 modifies f.announces.lru.items[*], f.announces.lru.weight, lel[f.announces.lru.evictList], llen[f.announces.lru.evictList], lidx[*], lown[*], nEvict, gEvictKey, gEvictVal, f.fetching[*]
 //@   loop 2 invariant finv(f) && 0 <= _k && _k <= len(_range)
 //@   loop 2 invariant [armed] pending(f) ==> gTimerArmed[fetchTimer]
+//@   loop 2 invariant [forgotten] forall(j, 0, _k, !lhas(f.announces.lru, _range[j]))
 //@   loop 3 modifies all[*]
 //@   loop 3 invariant arrof(all) == arrof(atentry(all)) || arrfresh(all, _loopalloc)
 //@   loop 3 invariant finv(f) && 0 <= _k && _k <= len(_range)
